@@ -337,7 +337,7 @@ fn multi_thread(c: &Case, exp: &Expected, st: &[Vec<Row>], seed: u64, o: &mut Ou
         let t0 = std::time::Instant::now();
         let mut complete = true;
         while kolibrie::verif_hooks::FIRINGS_DONE.load(Ordering::SeqCst) - base < want_firings {
-            if t0.elapsed().as_millis() > 4000 {
+            if t0.elapsed().as_millis() > 30_000 {
                 complete = false;
                 break;
             }
